@@ -514,6 +514,29 @@ theorem spec_stable {g g' : Graph} (hb : Built g) (hr : C18.Reach g g') :
       simp only [hlp, hlp']
       exact spec_stable hb hr is (lookup_some hlp).1
 
+/-- **lca_after_merge.**  Right after a commit `m` with parents `ps` is created — a merge commit in
+particular — the merge base of `m` and any of its named parents `p` is `p` itself, in both argument
+orders: merging the same branch tip again finds nothing to merge (`ErrUpToDate` / `ErrIsAhead` by
+`ff_iff_ancestor`).  With `lca_stable` this stays true whatever is committed later. -/
+theorem lca_after_merge {g g' : Graph} (hb : Built g) {a : Addr} {ps : List Addr}
+    (hadd : addCommit g a ps = .ok g') {p : Commit} (hp : p ∈ g) (hpp : p.addr ∈ ps) :
+    ∃ m, lookup g' a = some m ∧ m.parents = ps ∧
+      findCommonAncestor g' m p = .ok (some p.addr) ∧ findCommonAncestor g' p m = .ok (some p.addr) := by
+  have hb' : Built g' := .add hb hadd
+  have hlp := lookup_self_of_inv hb.inv hp
+  have hlp' := (C18.addr_stable hb (.step .refl hadd) hlp).1
+  unfold addCommit at hadd
+  split at hadd
+  · rename_i m hm
+    cases hadd
+    obtain ⟨h1, h2, _, _⟩ := mkCommit_ok hm
+    have hlm : lookup (m :: g) a = some m := by rw [lookup_cons, if_pos h1]
+    have hanc : AncStar (m :: g) p.addr m.addr :=
+      .inr (.parent ⟨m, by rw [h1]; exact hlm, by rw [h2]; exact hpp⟩)
+    obtain ⟨e1, e2⟩ := lca_of_ancestor hb' (lookup_some hlp').1 (lookup_some hlm).1 hanc
+    exact ⟨m, hlm, h2, e2, e1⟩
+  · cases hadd
+
 /-- non-vacuity of `lca_stable`: one more merge commit on top of the criss-cross graph -/
 def crissCrossPlus : Graph := match addCommit crissCrossGraph 60 [40, 50] with | .ok g => g | .error _ => []
 theorem crissCrossPlus_ok : addCommit crissCrossGraph 60 [40, 50] = .ok crissCrossPlus := by rfl
@@ -522,6 +545,11 @@ example : C18.Reach crissCrossGraph crissCrossPlus ∧ crissCrossPlus.length = 6
   ⟨.step .refl crissCrossPlus_ok, by decide,
    (lca_stable (C18.built_of_build crissCross_ok) (.step .refl crissCrossPlus_ok) (by decide) (by decide)).trans
      closure_walk_40_50⟩
+
+/-- non-vacuity of `lca_after_merge`: the merge commit 60 = (40, 50) and its parent 50 -/
+example : ∃ m, lookup crissCrossPlus 60 = some m ∧ m.parents = [40, 50] ∧
+    findCommonAncestor crissCrossPlus m c50 = .ok (some 50) ∧ findCommonAncestor crissCrossPlus c50 m = .ok (some 50) :=
+  lca_after_merge (C18.built_of_build crissCross_ok) crissCrossPlus_ok (p := c50) (by decide) (by decide)
 
 /-! ### non-vacuity -/
 
